@@ -14,6 +14,7 @@ use serde_json::{Value, json};
 
 use crate::backends::*;
 use crate::engine::*;
+use crate::ensure;
 use crate::faults::{self, MutId, TokenParts};
 use crate::gens::{self, BytesSpec};
 use crate::refmodel::{self as model, Ver};
@@ -593,15 +594,157 @@ fn enc_subs_for<B: Backend>(out: &mut Vec<SubCheck>) {
     ));
 }
 
+// ---------------------------------------------------------------------------
+// "moving bytes across the message / footer boundary" with the length field materialised:
+// if any piece length were authenticated lossily (a bit dropped, truncated to fewer bytes,
+// clamped), a genuine token's tag would also fit the re-split token built here.  For each
+// family member the genuine token carries, at offset t of its authenticated middle piece, the
+// 8 bytes that the *next* length field would have in the re-split token.
+
+#[derive(Clone, Debug, Serialize, Deserialize)]
+pub struct SpliceCase {
+    pub public: bool,
+    pub key: KeySeed,
+    /// length of the genuine message
+    pub len: u32,
+    /// offset at which the forged token ends its message
+    pub t: u32,
+    /// the 8 bytes at offset t (the forged footer's length as a lossy encoder would write it)
+    #[serde(with = "crate::util::hexser")]
+    pub field: Vec<u8>,
+    pub family: String,
+    pub assertion: bool,
+    pub content_seed: u32,
+}
+
+pub struct Splice {
+    pub genuine_payload: Vec<u8>,
+    pub forged_payload: Vec<u8>,
+    pub forged_footer: Vec<u8>,
+    pub assertion: Vec<u8>,
+}
+
+pub fn splice_cases<B: Backend>(seed: u64) -> Vec<SpliceCase> {
+    let mut out = Vec::new();
+    let mut k = 0u64;
+    for public in [true, false] {
+        if !public && !matches!(B::VER, model::Ver::V3 | model::Ver::V4) {
+            continue; // v1 / v2 derive the nonce from the message: the ciphertext cannot be shaped
+        }
+        let mut push = |len: u32, t: u32, field: Vec<u8>, family: String| {
+            for assertion in [false, true] {
+                if assertion && !B::VER.has_assertion() {
+                    continue;
+                }
+                k += 1;
+                out.push(SpliceCase { public, key: KeySeed::from_u64(mix(seed, k)), len, t, field: field.clone(), family: family.clone(), assertion, content_seed: (mix(seed, k) >> 7) as u32 });
+            }
+        };
+        // a bit of the length dropped / the length truncated to b bits: L and L - 2^b alias, 2^b aliases 0
+        for b in 3u32..=16 {
+            for r in [0u32, 5, 72] {
+                push((1 << b) + r, r, vec![0u8; 8], format!("length-bit-{b}-dropped"));
+            }
+        }
+        // the length clamped at cap: everything >= cap aliases, small lengths are exact
+        for cap in [255u32, 65535] {
+            push(cap + 50, cap + 10, 40u64.to_le_bytes().to_vec(), format!("length-clamped-at-{cap}"));
+        }
+    }
+    out
+}
+
+/// build the genuine token with the library and the re-split token from its bytes
+pub fn splice_build<B: Backend>(c: &SpliceCase) -> Result<Splice, Fail> {
+    let name = B::NAME;
+    let ver = B::VER;
+    let (len, t) = (c.len as usize, c.t as usize);
+    let assertion: Vec<u8> = if c.assertion { b"implicit".to_vec() } else { Vec::new() };
+    let mut target = rng::det_bytes(c.content_seed as u64, 0x5b11, len);
+    target[t..t + 8].copy_from_slice(&c.field);
+    let (genuine_payload, mid_start, mid_end) = if c.public {
+        let sk = secret_key::<B>(&c.key);
+        let tok = UnsealedToken::<V<B>, Public, Raw>::new(Raw(target.clone())).seal(&sk, &assertion).map_err(|e| Fail::new(format!("C02/{name}/public/splice/seal-failed"), format!("{e}")))?.to_string();
+        let (p, _) = model::disassemble(&model::header(ver, "public"), &tok).map_err(|e| Fail::new("HARNESS/splice-disassemble", e))?;
+        (p, 0usize, len)
+    } else {
+        let lk = local_key::<B>(&c.key);
+        let draw = rng::det_bytes(c.content_seed as u64, 0xd4a3, ver.local_draw_len());
+        let seal = |m: Vec<u8>| -> Result<Vec<u8>, Fail> {
+            let tok = UnsealedToken::<V<B>, Local, Raw>::new(Raw(m)).dangerous_seal_with_nonce(&lk, &assertion, draw.clone()).map_err(|e| Fail::new(format!("C02/{name}/local/splice/seal-failed"), format!("{e}")))?.to_string();
+            model::disassemble(&model::header(ver, "local"), &tok).map(|x| x.0).map_err(|e| Fail::new("HARNESS/splice-disassemble", e))
+        };
+        let nl = ver.local_nonce_len();
+        // keystream for this key and nonce = ciphertext of the all-zero message
+        let zero = seal(vec![0u8; len])?;
+        let ks = &zero[nl..nl + len];
+        let m: Vec<u8> = target.iter().zip(ks).map(|(a, b)| a ^ b).collect();
+        let p = seal(m)?;
+        if p[nl..nl + len] != target[..] {
+            return Err(Fail::new("HARNESS/splice-ciphertext", "could not shape the ciphertext (keystream depends on the message?)"));
+        }
+        (p, nl, nl + len)
+    };
+    let mut forged_payload = genuine_payload[..mid_start + t].to_vec();
+    forged_payload.extend_from_slice(&genuine_payload[mid_end..]);
+    let mut forged_footer = genuine_payload[mid_start + t + 8..mid_end].to_vec();
+    forged_footer.extend_from_slice(&[0u8; 8]);
+    Ok(Splice { genuine_payload, forged_payload, forged_footer, assertion })
+}
+
+fn splice_case<B: Backend>(c: &SpliceCase, acc: &mut Acc) -> R {
+    let name = B::NAME;
+    let purpose = if c.public { "public" } else { "local" };
+    let sp = splice_build::<B>(c)?;
+    let (ctl, forged) = if c.public {
+        let pk = secret_key::<B>(&c.key).public_key();
+        (attempt::<B, Public, Raw>(&sp.genuine_payload, b"", &sp.assertion, &pk, purpose).is_ok(), attempt::<B, Public, Raw>(&sp.forged_payload, &sp.forged_footer, &sp.assertion, &pk, purpose).is_ok())
+    } else {
+        let lk = local_key::<B>(&c.key);
+        (attempt::<B, Local, Raw>(&sp.genuine_payload, b"", &sp.assertion, &lk, purpose).is_ok(), attempt::<B, Local, Raw>(&sp.forged_payload, &sp.forged_footer, &sp.assertion, &lk, purpose).is_ok())
+    };
+    ensure!(ctl, format!("C02/{name}/{purpose}/splice/control-rejected"), "the genuine token was rejected");
+    ensure!(
+        !forged,
+        format!("C02/{name}/{purpose}/splice-{}/accepted", c.family.trim_end_matches(|ch: char| ch.is_ascii_digit() || ch == '-')),
+        "a token that was never sealed is accepted: the genuine {}-byte message re-split at byte {} with the rest moved into the footer ({}) carries the genuine tag",
+        c.len,
+        c.t,
+        c.family
+    );
+    acc.eval();
+    acc.nt(hash_of(&(c.public, &c.family, c.len, c.t, c.assertion)));
+    acc.class(&format!("splice:{}", if c.family.starts_with("length-bit") { "length-bit-dropped" } else { "length-clamped" }));
+    acc.sample(|| json!({"backend": name, "purpose": purpose, "family": c.family, "genuine_message_len": c.len, "forged_message_len": c.t, "forged_footer_len": sp.forged_footer.len()}));
+    Ok(())
+}
+
+fn splice_subs_for<B: Backend>(out: &mut Vec<SubCheck>) {
+    out.push(SubCheck::custom(
+        format!("c02.length-alias-splices/{}", B::NAME),
+        if B::VER == model::Ver::V1 { 8 } else { 3 },
+        |acc: &mut Acc| {
+            for c in splice_cases::<B>(acc.seed) {
+                acc.check(&c, |acc| splice_case::<B>(&c, acc));
+            }
+        },
+        |v: &Value, acc: &mut Acc| {
+            let c: SpliceCase = serde_json::from_value(v.clone()).map_err(|e| Fail::new("HARNESS/replay-decode", format!("{e}")))?;
+            splice_case::<B>(&c, acc)
+        },
+    ));
+}
+
 pub fn def() -> PropertyDef {
     let mut subs = Vec::new();
     crate::for_backends!(B => subs_for::<B>(&mut subs));
     crate::for_backends!(B => typed_subs_for::<B>(&mut subs));
     crate::for_backends!(B => enc_subs_for::<B>(&mut subs));
+    crate::for_backends!(B => splice_subs_for::<B>(&mut subs));
     PropertyDef {
         id: "C02",
         level: "fault_enumeration",
-        rule: "for each generated sealed token (proptest-sampled key, message, footer, assertion): the full mutation catalogue - every single-bit flip of payload, footer and assertion (exhaustive for tokens up to 176 B quick / 2 KiB thorough, edges + sample beyond), every truncation length front and back, 1-3 byte extensions at each field boundary, 1-3 byte shifts across body|footer|assertion, footer/assertion add-remove-replace-swap, other key, one-bit key neighbours, negated P-384 point, other purpose header, other version header with the same key bytes, payload-encoding suffix rewritten in the header (tokens sealed under a suffixed Payload type offered as the plain one and vice versa), v1/v2 sealing with an assertion; structured footers (JSON and a case/space-insensitive footer type): every different byte string that decodes to the SAME footer value (whitespace, trailing newline, shadowed duplicate key, escaped key, changed case) must be rejected too; oracle: every mutant rejected, unmutated control accepted with the original claims. Non-trivial iff the mutant is long enough to reach the cryptographic check; distinct by (token, class, position)",
+        rule: "for each generated sealed token (proptest-sampled key, message, footer, assertion): the full mutation catalogue - every single-bit flip of payload, footer and assertion (exhaustive for tokens up to 176 B quick / 2 KiB thorough, edges + sample beyond), every truncation length front and back, 1-3 byte extensions at each field boundary, 1-3 byte shifts across body|footer|assertion, footer/assertion add-remove-replace-swap, other key, one-bit key neighbours, negated P-384 point, other purpose header, other version header with the same key bytes, payload-encoding suffix rewritten in the header (tokens sealed under a suffixed Payload type offered as the plain one and vice versa), v1/v2 sealing with an assertion; structured footers (JSON and a case/space-insensitive footer type): every different byte string that decodes to the SAME footer value (whitespace, trailing newline, shadowed duplicate key, escaped key, changed case) must be rejected too; length-alias splices: genuine tokens (public: every back end; local: v3/v4, ciphertext shaped through the nonce path) whose middle piece carries at offset t the bytes a lossy length field would have, re-split at t with the remainder moved into the footer - would authenticate iff some piece length were encoded with a dropped bit (bits 3..16), truncated, or clamped (255, 65535); oracle: every mutant rejected, unmutated control accepted with the original claims. Non-trivial iff the mutant is long enough to reach the cryptographic check; distinct by (token, class, position)",
         assumptions: vec![
             "mutants are offered through FromStr + unseal (the public path); a mutant equal to the original tuple is dropped by byte comparison",
             "ECDSA (r, n-s) malleability is not a single-bit neighbour and is not demanded",
